@@ -2,6 +2,7 @@ package rules
 
 import (
 	"go/ast"
+	"go/token"
 	"strings"
 
 	"verif/checker/eng"
@@ -582,6 +583,44 @@ func closerTypestate(c *cx, id string) {
 // read of Session.in.ctx.
 func serveCtxReread(c *cx, id string, sv *eng.Fn) {
 	g := sv.Graph()
+	// ... and the end of a context that has been REPLACED in the meantime
+	// does not end Serve: SetCloseDeadline cancels the context it replaces, and
+	// it can do so between the loop's read of in.ctx and its poll. From the
+	// ctx.Done() arm every return passes a comparison of the polled context
+	// with the session's current one.
+	isRecheck := func(q eng.Point, nd ast.Node) bool {
+		found := false
+		ast.Inspect(nd, func(x ast.Node) bool {
+			if be, ok := x.(*ast.BinaryExpr); ok && (be.Op == token.EQL || be.Op == token.NEQ) {
+				for _, side := range []ast.Expr{be.X, be.Y} {
+					if k, _ := sv.FieldClass(side); k == "xmpp.Session.in.ctx" {
+						found = true
+					}
+				}
+			}
+			return !found
+		})
+		return found
+	}
+	nArm := 0
+	for _, ce := range g.EdgesMatching("selectarm(recv context.Context.Done[*]())") {
+		from := g.EdgeTarget(ce.E)
+		if !g.Reachable(from, from, nil, nil) {
+			continue // not in the loop
+		}
+		nArm++
+		bad := ""
+		for _, rs := range g.Returns {
+			rp, _ := g.Where(rs)
+			if g.Reachable(from, rp, nil, func(q eng.Point, nd ast.Node) bool {
+				return isRecheck(q, nd) || sv.ContainsCall(nd, "xmpp.handleInputStream") != nil
+			}) {
+				bad = "return at " + c.p.Pos(rs.Pos()) + " follows the Done() arm without asking whether the polled context is still the session's: SetCloseDeadline racing with the loop makes Serve return context.Canceled"
+			}
+		}
+		c.r.Check(id, sv, "a replaced context does not end Serve", "O: from the ctx.Done() arm of the serve loop every return passes a comparison with the current Session.in.ctx", sv.Pos(), bad == "", bad)
+	}
+	c.r.Floor(id, "Done() arms in the serve loop", nArm, 1)
 	// the close-deadline context is re-read in every iteration of the serve
 	// loop (SetCloseDeadline installs a NEW context while Serve runs): no
 	// cycle from the Done() wait back to itself avoids the read of in.ctx
